@@ -20,6 +20,12 @@ CLAIMED = {
          "against the fresh build of /repo on generated inputs over dtypes x layouts x element classes, and the extracted Coq "
          "specification judges the implementation's outputs",
          "Rocq proof + translator + differential correspondence"),
+ "C07": ("proof", "Coq theorems (any dimension, mode, neighbourhood): the samples gathered by the filter kernels are those selected "
+         "by the neighbourhood under the mathematical border rule (through the re-translated fix_offset); the selected element is the "
+         "rank-th smallest by counting (unique), with the proportional rank in ignore mode; mean = (sum, count) of those samples; "
+         "template_match = sum of squared differences (no-overflow regime); find marks a position iff the template occurs there, "
+         "flush edges and template = image included. Model and extracted specification are run against the fresh build on generated inputs",
+         "Rocq proof + translator + differential correspondence"),
 }
 NOT_YET = "check not built yet in this round (see DESIGN.md section 8 for the plan)"
 ALL = ["C%02d" % i for i in range(1, 21)]
